@@ -111,6 +111,10 @@ type c06Step struct {
 	DelayMs    int64  `json:"delay_ms"`
 	Clock      string `json:"clock_class"`
 	Relay      string `json:"relay"`
+	// Reconf: before this emission the operator changes the signature method on the SAME IdentityProvider object
+	// ("keep": no change; "default": unset; else a method URI) and optionally switches between Key and crypto.Signer
+	Reconf     string `json:"reconfigure_sig_method,omitempty"`
+	ReconfMode string `json:"reconfigure_key_mode,omitempty"` // "" | key | signer
 }
 
 // ---------------------------------------------------------------- registry / sessions
@@ -410,6 +414,11 @@ func genEgress(g *Rng, tier string) *Plan {
 		if st.DelayMs < 0 {
 			st.IdPSkewMs, st.DelayMs = age+st.SPSkewMs, 0
 		}
+		if len(p.Steps) > 0 && g.Bool(0.2) {
+			// an operator reconfigures the live IdP object between two emissions
+			st.Reconf = Pick(g, "default", dsig.RSASHA1SignatureMethod, dsig.RSASHA256SignatureMethod, dsig.RSASHA384SignatureMethod, dsig.RSASHA512SignatureMethod)
+			st.ReconfMode = Pick(g, "", "", "key", "signer")
+		}
 		p.Steps = append(p.Steps, mustJSON(st))
 	}
 	return p
@@ -578,6 +587,29 @@ func execEgress(t *testing.T, p *Plan) *Result {
 		st := decode[c06Step](raw)
 		if st.SP < 0 || st.SP >= len(k.SPs) || st.Session < 0 || st.Session >= len(sessions) {
 			continue
+		}
+		if st.Reconf != "" && st.Reconf != "keep" || st.ReconfMode != "" {
+			if st.Reconf != "" && st.Reconf != "keep" {
+				k.SigMethod = st.Reconf
+				if st.Reconf == "default" {
+					k.SigMethod = ""
+				}
+				idp.SignatureMethod = k.SigMethod
+				wantAlgo = k.SigMethod
+				if wantAlgo == "" {
+					wantAlgo = dsig.RSASHA1SignatureMethod
+				}
+			}
+			switch st.ReconfMode {
+			case "signer":
+				k.KeyMode = "signer"
+				idp.Signer, idp.Key = c06Signer{idpKey.Key}, nil
+			case "key":
+				k.KeyMode = "key"
+				idp.Signer, idp.Key = nil, idpKey.Key
+			}
+			res.fire("idp-reconfigured")
+			res.logf("step %d the IdP object is reconfigured: method=%s mode=%s", si, c06Short(k.SigMethod), k.KeyMode)
 		}
 		meta := &k.SPs[st.SP]
 		exp := &c06Expect{audience: c06Entity(st.SP), own: strs[st.Session]}
